@@ -306,6 +306,25 @@ func readFullAt(r io.ReadSeeker, buf []byte, off int64) error {
 	return err
 }
 
+// checkExtentWithinFile reports an error unless the extent [offset, offset+size)
+// lies inside the file. Callers check it before sizing a buffer from block
+// metadata: the metadata may come from a MetaStore or an external caller rather
+// than from ReadFileMetadata's validation, and an extent that runs past the
+// file must fail cleanly instead of driving an absurd allocation (or a
+// makeslice panic). offset and size must already be known non-negative. The
+// bound is computed by subtraction so it cannot overflow. The seek position is
+// left at the end of the file; readFullAt seeks absolutely.
+func checkExtentWithinFile(file io.Seeker, offset, size int) error {
+	fileSize, err := file.Seek(0, io.SeekEnd)
+	if err != nil {
+		return fmt.Errorf("failed to determine file size: %w", err)
+	}
+	if int64(offset) > fileSize || int64(size) > fileSize-int64(offset) {
+		return fmt.Errorf("extent (offset %d, size %d) runs past the end of the %d-byte file", offset, size, fileSize)
+	}
+	return nil
+}
+
 // fileMetadataFromBytesWithHash verifies a metadata payload's CRC32C and
 // decodes it. The caller resolves the file filter section via
 // FileFilterSectionSize.
@@ -463,6 +482,9 @@ func ReadDataBlockBloomFilters(file io.ReadSeeker, blockMetadata DataBlockMetada
 	}
 	if blockMetadata.BloomFilterSize == 0 {
 		return &BloomFilters{}, nil
+	}
+	if err := checkExtentWithinFile(file, blockMetadata.BloomFilterOffset, blockMetadata.BloomFilterSize); err != nil {
+		return nil, fmt.Errorf("invalid bloom filter section location: %w", err)
 	}
 
 	// The section bytes are transient: parseFilterSection copies out what it
@@ -838,6 +860,9 @@ func ReadDataBlockRowData(file io.ReadSeeker, block *DataBlockMetadata) ([]byte,
 	if block.RowDataOffset < 0 || block.RowDataSize < 0 {
 		return nil, fmt.Errorf("invalid row data location (offset %d, size %d)", block.RowDataOffset, block.RowDataSize)
 	}
+	if err := checkExtentWithinFile(file, block.RowDataOffset, block.RowDataSize); err != nil {
+		return nil, fmt.Errorf("invalid row data location: %w", err)
+	}
 
 	compressed := make([]byte, block.RowDataSize)
 	if err := readFullAt(file, compressed, int64(block.RowDataOffset)); err != nil {
@@ -862,6 +887,9 @@ func readPooledBlockRowData(file io.ReadSeeker, block *DataBlockMetadata) (rowDa
 	}
 	if block.UncompressedSize < 0 {
 		return nil, nil, fmt.Errorf("invalid uncompressed size %d", block.UncompressedSize)
+	}
+	if err := checkExtentWithinFile(file, block.RowDataOffset, block.RowDataSize); err != nil {
+		return nil, nil, fmt.Errorf("invalid row data location: %w", err)
 	}
 
 	compressed := getScanBuffer(block.RowDataSize)
